@@ -372,6 +372,8 @@ RULES = {
     # R31: `s.rsplit(p).next()` -> `s.vrsplit_first(p)`, `s.split(c).next()` -> `s.vsplit_first(c)` (Split / RSplit iterators have no
     # specification), `&name[1..]` -> `name.vslice_from(1)`, `.parse()` -> `.vparse_u32()` (get_highest_index parses a u32)
     "R31": [(".rsplit($C).next()", ".vrsplit_first($C)"), (".split($C).next()", ".vsplit_first($C)"), ("&name[1..]", "name.vslice_from(1)"), (".parse()", ".vparse_u32()")],
+    # R22m: `module_name.as_ref().to_owned()` (M: AsRef<str>) -> shim `vas_ref_owned(&module_name)`
+    "R22m": [("module_name.as_ref().to_owned()", "vas_ref_owned(&module_name)")],
     # R22g: `x.as_ref()` for `x: S`, `S: AsRef<str>` (x = `s` or `spec`) -> shim `vas_ref(&x)` (the general form of R22)
     "R22g": [("s.as_ref()", "vas_ref(&s)"), ("spec.as_ref()", "vas_ref(&spec)")],
     # R30c: `continue` in the copied body of one iteration of the loop of LogSpecification::parse -> `return (parse_errs, dirs)`
